@@ -297,6 +297,10 @@ def judgeBlock (tl : List String) (cr : List (Nat × List String)) (warns : List
     let n := s.toList.takeWhile isSuper
     (superVal (String.ofList n), String.ofList ((s.toList.dropWhile isSuper).drop 1))
   let tmsgs := dedup (defs.map (·.2))
+  -- the footnotes are numbered 1, 2, 3, … in the order they are listed, each message once
+  if defs.map (·.1) != (List.range defs.length).map (· + 1) then
+    v := v.merge (failAgree s!"footnoteseq:{defs.length}")
+  if tmsgs.length != defs.length then v := v.merge (failAgree "footnotedup")
   if !(foots.all fun n => defs.any (·.1 == n)) || !(defs.all fun d => foots.contains d.1) then
     v := v.merge (failAgree "footnoterefs")
   let lo := (chead.headD (0, [])).1
